@@ -7,6 +7,8 @@ import (
 )
 
 func init() {
+	verifRegister("C09_seedtokens", verifH_C09_seedtokens)
+	verifRegister("C09_seedsparse", verifH_C09_seedsparse)
 	verifRegister("C09_tokens", verifH_C09_tokens)
 	verifRegister("C09_bytes", verifH_C09_bytes)
 }
@@ -60,10 +62,64 @@ func verifH_C09_tokens() {
 	verifReach("end")
 }
 
+// H09-seedtokens: the token list of a seed statement with n symbolic tokens
+// (full vocabulary) inserted at a chosen position, or replacing the n tokens
+// there: reaches parser states deep inside every clause (a second LIMIT, a
+// keyword inside a VALUES list, ...), where short free sequences do not get.
+func verifH_C09_seedtokens() {
+	seed := verifSeedStatements[verifParam("seed", 0)]
+	n := verifParam("n", 1)
+	replace := verifParam("replace", 0) == 1
+	textMode := verifParam("text", 0)
+	ts := NewTokenScanner(strings.NewReader(seed))
+	var toks []Token
+	for ts.Next() {
+		toks = append(toks, ts.Cur())
+	}
+	vocab := verifTokenTypes()
+	at := verifChoice("at", len(toks)+1)
+	var sym []Token
+	for i := 0; i < n; i++ {
+		var text string
+		switch textMode {
+		case 0:
+			b := verifBytes("txt", 1)
+			verifAssume(b[0] < 0x80)
+			text = string(b)
+		case 1:
+			text = "99999999999999999999"
+		default:
+			text = "databases"
+		}
+		sym = append(sym, Token{Type: TokenType(verifIntFrom("tok", vocab)), Line: 1, Column: 1, Text: text})
+	}
+	tl := TokenList{}
+	for i, t := range toks {
+		if i == at {
+			for _, s := range sym {
+				tl.Add(s)
+			}
+		}
+		if replace && i >= at && i < at+n {
+			continue
+		}
+		tl.Add(t)
+	}
+	if at == len(toks) {
+		for _, s := range sym {
+			tl.Add(s)
+		}
+	}
+	p := Parser{TokenList: tl}
+	stmt, err := p.Parse()
+	verifAssert(err != nil || stmt != nil, "statement-or-error")
+	verifReach("end")
+}
+
 // verifSeedStatements cover every production of the grammar.
 var verifSeedStatements = []string{
-	"SELECT a, t.b AS x, count(*), avg(c) FROM t LEFT JOIN u v ON t.a = v.a AND 1 = 1 OR 'x' != 'y' WHERE a >= 1 AND b < 'q' OR c <= 2 GROUP BY a ORDER BY a DESC, b ASC LIMIT 10 OFFSET 2",
-	"SELECT * FROM t INNER JOIN u ON t.a = u.a RIGHT JOIN w ON true = false",
+	"SELECT a AS x, count(*), avg(c) FROM t LEFT JOIN u v ON t.a = v.a AND 1 = 1 OR 'x' != 'y' WHERE a >= 1 AND b < 'q' OR c <= 2 GROUP BY a ORDER BY a DESC, b ASC LIMIT 10 OFFSET 2",
+	"SELECT *  FROM t INNER JOIN u ON t.a = u.a RIGHT JOIN w ON true = false ORDER BY a, t.b DESC OFFSET 1 LIMIT 3",
 	"SELECT 1 = 1, \"quoted\" FROM t",
 	"INSERT INTO t (a, b) VALUES (1, 'x'), (2, 'y')",
 	"INSERT INTO t VALUES (true, false)",
@@ -74,6 +130,15 @@ var verifSeedStatements = []string{
 	"USE d",
 	"SHOW DATABASES",
 	"SHOW DATABASE",
+}
+
+// every seed statement must itself parse (otherwise mutations of it explore little)
+func verifH_C09_seedsparse() {
+	for _, q := range verifSeedStatements {
+		stmt, err := verifParseText(q)
+		verifAssert(err == nil && stmt != nil, "seed-parses")
+	}
+	verifReach("end")
 }
 
 func verifParseText(q string) (interface{}, error) {
